@@ -1,5 +1,7 @@
 import FastorModel.Proofs.ViewWrite
 import FastorModel.Proofs.Odometer
+import FastorModel.Model.ScalarWrite
+import FastorModel.Proofs.ViewsRead
 import Mathlib.Data.List.Nodup
 import Mathlib.Data.List.Range
 /-
@@ -23,6 +25,8 @@ import Mathlib.Data.List.Range
   * `norm_admissible`            every view class maps every admissible encoding (plain, `last`-relative, both ends from the end) of
                                  `0 ≤ f < l ≤ n, s ≥ 1` to the axis (f, s, ⌈(l-f)/s⌉) whose elements lie inside the parent axis
                                  (`seq::size` with C++ truncating `/ %`): the hypotheses of the write theorems hold for them.
+  * `scalar_write_correct`       scalar element assignment `A(i,j,…) op= x` for every rank (C04's `scalarIndex` composed with one
+                                 read-modify-write): the documented element gets op(old,x), frame everywhere else.
   * `writes_seq`                 sequences of writes compose: the memory after a history is the fold of the
                                  per-write specifications.
   * `write_correct_nd`           n-D views of EVERY rank (odometer; equal-order binders and scalar right-hand sides; vector and
@@ -438,6 +442,30 @@ theorem norm_admissible (c : Cls) (n f l s : Nat) (hfl : f < l) (hln : l ≤ n) 
     omega
 
 example : Enc 9 2 9 3 ⟨2, -1, 3⟩ := Enc.lastRel
+/-! ### scalar element assignment -/
+
+/-- **scalar_write_correct** (last sentence of the property), all ranks (1–4 written out in IndexRetriever.h, >= 5 the
+    loop), `Tensor` and `TensorMap`, with or without FASTOR_BOUNDS_CHECK: for indices in `[-d_k, d_k)` the statement
+    `A(i,j,…) op= x` leaves `op(old, x)` in the element whose every negative index is counted from the end of ITS axis
+    (row-major offset) and changes no other position of memory. -/
+theorem scalar_write_correct (chk : Bool) (dims : List Nat) (args : List Int) (h : Views.ValidArgs dims args)
+    (op : WOp) (x : α) (m : Nat → α) :
+    scalarWrite chk dims args op x m =
+      fun p => if p = Views.rowMajor dims (List.zipWith Views.wrapNat dims args) then op.ap (m p) x else m p := by
+  unfold scalarWrite
+  rw [Views.scalarIndex_valid chk dims args h]
+  simp
+
+/-- with the assertion compiled in, an out-of-range index changes nothing -/
+theorem scalar_write_checked (dims : List Nat) (args : List Int)
+    (h : Views.inBounds dims (List.zipWith Views.wrapIdx dims args) = false) (op : WOp) (x : α) (m : Nat → α) :
+    scalarWrite true dims args op x m = m := by
+  unfold scalarWrite
+  rw [Views.scalarIndex_checked_oob dims args h]
+
+example : Views.ValidArgs [2, 3, 4] [1, -3, -1] := by simp [Views.ValidArgs]
+example : scalarWritePos true [2, 3, 4] [1, -3, -1] = some 15 := by decide
+
 /-- **writes_seq**: a history of writes, each with pairwise distinct stored positions, leaves the memory
     obtained by folding the per-write specifications -/
 theorem writes_seq (ws : List (WOp × (Nat → α) × List Iter)) (m : Nat → α)
